@@ -13,7 +13,7 @@ pool means, margin, overstatements, test data, u) is computed by the model from 
 import math
 from fractions import Fraction
 
-from ..core import fr, num_close, err_kind, case_key
+from ..core import fr, num_close, err_kind, case_key, container, CONTAINER_KINDS
 
 NAME = "overstatement"
 RULE = ("populations of 1-30 (CVR, MVR) pairs built with CVR.from_dict / CVR(...) / CVR.make_phantoms; 0-3 tally pools, any "
@@ -213,7 +213,9 @@ def impl(case):
             arg = CVR.pool_contests(cvrs)
 
         def f():
-            asn.assorter.set_tally_pool_means(cvr_list=cvrs, tally_pools=arg, use_style=us)
+            # (two passes over the records when the pools are not given: a re-iterable container only)
+            asn.assorter.set_tally_pool_means(cvr_list=(tuple(cvrs) if case.get("container") not in (None, "list") else cvrs),
+                                              tally_pools=arg, use_style=us)
             return {"st": "ok", "means": [[k, _num(v)] for k, v in asn.assorter.tally_pool_means.items()]}
         res["pm"] = _call(f)
     if case.get("means_override") is not None:
@@ -221,7 +223,7 @@ def impl(case):
     res["means_set"] = asn.assorter.tally_pool_means is not None
     # 2. margin
     def g():
-        asn.set_margin_from_cvrs(audit, cvrs)
+        asn.set_margin_from_cvrs(audit, container(case.get("container"), cvrs))
         return {"st": "ok", "margin": _num(asn.margin), "u": _num(asn.test.u)}
     res["mg"] = _call(g)
 
@@ -771,6 +773,7 @@ def gen_one(rng):
     case["flag_type"] = rng.choice(["bool", "bool", "np", "int"])
     case["direct"] = scf != "IRV" and rng.chance(0.4)     # assertion built by the direct constructor call
     case["np_marks"] = scf != "IRV" and rng.chance(0.15)   # marks held as numpy scalars
+    case["container"] = rng.choice(CONTAINER_KINDS)
     _ctor_means = rng.chance(0.2)                          # Assertion(...) with preliminary pool means (filled in below)
     case["use_style"] = rng.chance(0.6)
     r = rng.random()
